@@ -180,6 +180,14 @@ def correspondence(ctx, verdict, pr):
     nblocked_obs = nhook_obs = 0
     distinct = set()
     orc = 0
+    reported = {}
+
+    def report(sig, what, obj):
+        """at most two replays per kind of failure"""
+        key = sig.split(':')[0]
+        reported[key] = reported.get(key, 0) + 1
+        if reported[key] <= 2:
+            verdict.oracle_failure(sig, what, obj)
     for cid, users, steps, kind in cases:
         io = go['obs'].get(cid)
         if io is None:
@@ -199,7 +207,7 @@ def correspondence(ctx, verdict, pr):
             dump = ''
             if cid in go['hang'] and os.path.exists(go['hang'][cid]):
                 dump = open(go['hang'][cid]).read()[:6000]
-            verdict.oracle_failure('deadlock:threads-%s-wait-forever' % '-'.join(map(str, go['blocked'][cid])),
+            report('deadlock:threads-%s-wait-forever' % '-'.join(map(str, go['blocked'][cid])),
                                    'C17 oracle: operations blocked forever (nobody is parked, %d threads wait for locks)' % len(go['blocked'][cid]),
                                    dict(case=dict(id=cid, users=users, steps=steps), implementation=io, model=mo,
                                         blocked_threads=go['blocked'][cid], goroutines=dump, how=how))
@@ -207,7 +215,7 @@ def correspondence(ctx, verdict, pr):
         for k in go['orph'].get(cid, [])[:2]:
             orc += 1
             sig = classify(cid, k, go['ses'].get(cid, []), corresponded)
-            verdict.oracle_failure(sig, 'C17 oracle: live session %d of scenario %s is not reachable from userPanel.activeUsers at quiescence' % (k, cid),
+            report(sig, 'C17 oracle: live session %d of scenario %s is not reachable from userPanel.activeUsers at quiescence' % (k, cid),
                                    dict(case=dict(id=cid, users=users, steps=steps), implementation=io, model=mo,
                                         unreachable_sessions=go['orph'][cid], sessions=go['ses'].get(cid), how=how))
     f5 = go.get('f5real')
